@@ -1,5 +1,6 @@
 import TbbVerif.Core.Proto
 import TbbVerif.Model.C13
+import TbbVerif.Model.C13Hist
 
 open TbbVerif
 
